@@ -184,6 +184,13 @@ def h_mps_whole(H, net, training):
             if hasattr(m, 'sample_alpha') and hasattr(m, 'theta_alpha'):
                 m.sample_alpha()               # what the training forward does to the sampled coefficients (soft in training mode)
         c_before = H.scalar(model.get_cost())
+        # the read-only reports of the wrapper (alpha_summary / theta_alpha_summary / str) between the cost reads
+        a_s = model.alpha_summary()
+        t_s = model.theta_alpha_summary()
+        str(model)
+        H.ensure('[C18] observers:coefficient-reports-list-the-layers-summary-lists', sorted(a_s.keys()) == sorted(summ.keys()) and sorted(t_s.keys()) == sorted(summ.keys()))
+        H.ensure('[C18] observers:cost-unchanged-by-the-coefficient-reports', H.eq(H.scalar(model.get_cost()), c_before))
+        H.ensure('[C18] observers:training-mode-kept-by-the-coefficient-reports', all(m.training for m in model.modules()))
         model.export()
         H.ensure('[C18] export:cost-read-after-export-in-training-mode-equals-the-cost-before', H.eq(H.scalar(model.get_cost()), c_before))
         H.ensure('[C18] export:training-mode-kept', all(m.training for m in model.modules()))
@@ -249,7 +256,7 @@ _FUNCS = [_P + 'mps.py::MPS.__init__', _P + 'mps.py::MPS.export', _P + 'mps.py::
 HARNESSES = [
     dict(name='whole-mps-per-channel', bounded='enumerated architectures (contracts/whole_mps.py NETS); selection coefficients symbolic, weights and input CONCRETE', fn='h_mps_per_channel', property=['C05', 'C09'], functions=_FUNCS,
          quick=[dict(net='chain'), dict(net='depthwise-middle')], thorough=[dict(net=n) for n in ('chain', 'residual', 'depthwise-middle')], timeout=120, crosscheck=2),
-    dict(name='whole-mps', bounded='enumerated architectures (contracts/whole_mps.py NETS); selection coefficients symbolic, weights and input CONCRETE', fn='h_mps_whole', property=['C02', 'C05', 'C11', 'C07', 'C18'], functions=_FUNCS,
+    dict(name='whole-mps', bounded='enumerated architectures (contracts/whole_mps.py NETS); selection coefficients symbolic, weights and input CONCRETE', fn='h_mps_whole', property=['C02', 'C05', 'C11', 'C07', 'C18'], functions=_FUNCS + [_P + 'mps.py::MPS.' + f for f in ('alpha_summary', 'theta_alpha_summary', 'nas_parameters_summary', '__str__')],
          quick=[dict(net='chain', training=True), dict(net='residual', training=False), dict(net='residual1d', training=False), dict(net='depthwise-first', training=False), dict(net='depthwise-middle', training=False)],
          thorough=[dict(net=n, training=t) for n in NETS for t in _B], timeout=120, crosscheck=2),
 ]
